@@ -519,3 +519,84 @@ func TestC04BigDisk(t *testing.T) {
 		}
 	})
 }
+
+// The enumerated two-client cases of C03 (one request held at one of its lock/commit points while another client
+// completes one or two conflicting requests) under the structural oracle: when both clients have returned and
+// background work is done, the disk must hold a well-formed file system, whatever order the requests took effect in.
+func TestC04Enum(t *testing.T) {
+	shard, nshards := EnvInt("VERIF_SHARD", 0), EnvInt("VERIF_NSHARDS", 1)
+	seed := EnvInt("VERIF_SEED", 1)
+	cases := enumSpace()
+	St.Exhaustive(Thorough())
+	run := 0
+	for i, ec := range cases {
+		if i%nshards != shard || ec.Data {
+			continue
+		}
+		if !Thorough() && Hash(seed, i, "c04")%4 != 0 && !ec.HalfFreed {
+			continue
+		}
+		d := NewDisk(9000)
+		d.SetRecord(false)
+		w, err := setupWorld(true, true, d)
+		if err != nil {
+			t.Fatalf("setup: %v", err)
+		}
+		if ec.HalfFreed {
+			makeHalfFreed(w)
+		}
+		api := w.S.API()
+		hfile := ""
+		for k, o := range ec.Pre {
+			r := w.exec(api, o)
+			if k == 0 {
+				hfile = r.Handle
+			}
+		}
+		op0 := ec.Op0
+		prog1 := append([]cOp{}, ec.Prog1...)
+		if ec.HFile {
+			w.exec(api, cOp{Kind: "writeh", H: hfile, Off: 0, Data: string(patternData(31, 8000)), Stable: 2})
+			if strings.HasSuffix(op0.Kind, "h") {
+				op0.H = hfile
+			}
+			for k := range prog1 {
+				if strings.HasSuffix(prog1[k].Kind, "h") {
+					prog1[k].H = hfile
+				}
+			}
+		}
+		progs := [][]cOp{{op0}, prog1}
+		pause := &pauseSpec{Client: 0, Hook: ec.Hook, MaxWait: 20 * time.Millisecond}
+		r := w.runConcurrentFrom(progs, 0, false, 10*time.Second, pause, 0)
+		cc := concCase{Unstable: true, LowChildren: true, Progs: progs, Pause: pause}
+		detail := cc.describe()
+		detail["history"], detail["enum_index"] = describeHistory(r.Ops), i
+		if r.Slow || r.Hung || r.Panic != "" {
+			St.Class("run_not_judged")
+			continue // C06 / C11 report these; the server may be wedged, leave it
+		}
+		var ferr error
+		o := Guard(10*time.Second, func() {
+			w.S.Quiesce()
+			ferr = Fsck(w.S.N.VerifFsState(), FsckOpts{Allocators: true, AllowHalfFreed: ec.HalfFreed}).Err()
+		})
+		if o.Slow {
+			St.Class("call_too_slow_for_the_harness_not_judged")
+			continue
+		}
+		if o.Bad() || ferr != nil {
+			msg := fmt.Sprintf("after two clients' conflicting requests (client 0 held at its lock/commit point #%d while client 1 ran) the disk is not a well-formed file system: %v %v", ec.Hook, o, ferr)
+			St.Violation("C04", msg, detail)
+			t.Fatalf("C04: %s\n%v", msg, detail)
+		}
+		w.S.Stop()
+		run++
+		St.Eval(1)
+		if r.Paused {
+			St.NT(Hash("c04enum", i))
+		}
+	}
+	St.ClassN("enumerated_two_client_cases_checked", run)
+	St.Sample(map[string]any{"kind": "enumerated two-client cases under the structural oracle", "cases_in_this_shard": run}, true)
+}
